@@ -400,6 +400,10 @@ def run_check(mod, tier: str) -> int:
         "determinism_sample": det_report,
         "repo_head": env.repo_head(),
     }
+    # scripted faults (exceptions, failing commands, damaged lines, crash points ...) are counted by the checks as probes;
+    # FAULT_PROBES names the ones that are injected faults so that they appear next to the kernel-level ones
+    for label, probe in getattr(mod, "FAULT_PROBES", {}).items():
+        cov["fault_counts"]["fault_fired:" + label] = agg.get("probe:" + probe, 0)
     cov.update(extra)
     zero = [k for k in getattr(mod, "PROBES", []) if agg.get("probe:" + k, 0) == 0]
     cov["probes_never_hit"] = zero
